@@ -148,7 +148,8 @@ const BASE: Family = Family {
     eager: false,
 };
 
-pub const FAMILY_NAMES: &[&str] = &["mix", "nolimit", "evict", "expiry", "stream", "pool", "nocancel", "seq", "scale", "scale-stream"];
+pub const FAMILY_NAMES: &[&str] =
+    &["mix", "nolimit", "evict", "expiry", "stream", "pool", "nocancel", "seq", "wide", "wide-evict", "scale", "scale-stream"];
 
 /// Named parameter sets. To add a family: add a name above and an arm here.
 pub fn family(name: &str) -> Option<Family> {
@@ -228,6 +229,40 @@ pub fn family(name: &str) -> Option<Family> {
             w_count: 3,
             w_keys: 3,
             gop_w: [6, 3, 3, 3, 3, 3, 1],
+            ..BASE
+        },
+        // medium scope: a dozen keys, limits up to 10, six agents, long runs (for behaviour that depends on a
+        // population, limit or number of parties beyond the 3-4 of the other families but far below `scale`)
+        "wide" => Family {
+            name: "wide",
+            max_keys: 12,
+            max_agents: 6,
+            max_steps: 140,
+            lim_max: 10,
+            p_limit: 40,
+            w_gop: 22,
+            w_lock: 26,
+            gop_w: [10, 2, 2, 2, 2, 2, 1],
+            p_evict_rem: 60,
+            expire_max_d: 8,
+            ..BASE
+        },
+        "wide-evict" => Family {
+            name: "wide-evict",
+            max_keys: 12,
+            max_agents: 5,
+            max_steps: 140,
+            p_limit: 85,
+            lim_max: 10,
+            w_lock: 26,
+            w_cbret: 25,
+            w_gop: 24,
+            w_expire: 0,
+            w_stream: 0,
+            w_stream_step: 0,
+            w_tick: 1,
+            gop_w: [12, 2, 1, 1, 2, 1, 0],
+            p_evict_rem: 60,
             ..BASE
         },
         // P: LockPool (b, a, t; no values)
